@@ -1,62 +1,35 @@
 import OZ.Drv.FungibleIO
 /-
-Driver for C01 (fungible supply conservation). Model = OZ.Fungible; the monitor evaluates
-the property's conclusion directly on the implementation's observations:
+Driver for C01 (fungible supply conservation). Model = OZ.Fungible (`FungibleIO.stepLine`). The
+monitor evaluates the property's conclusion directly on the implementation's observations:
   Σ balances = total_supply, balances ≥ 0, supply moves by exactly ±amount on mint/burn and
   not at all otherwise, a failed call changes nothing, and the replay of the emitted
   mint/burn/transfer events from genesis reproduces every balance.
+
+This file only parses (`parseLine`, `parseObs`, `minit`) and calls the monitor core
+`OZ.FungibleMon.Supply.checkCore` (OZ/Model/FungibleMon.lean), which OZ/Props/C01Mon.lean proves
+sound (it reports nothing on any observation sequence of the model).
+Not covered by that theorem (string level, kept here): `site=fungible.parse` for an observation
+line that does not parse.
 -/
 namespace OZ.Drv.C01
-open OZ.Drv OZ.Drv.FungibleIO OZ.Fungible
+open OZ.Drv OZ.Drv.FungibleIO OZ.Fungible OZ.FungibleMon OZ.FungibleMon.Supply
 
-structure Mon where
-  prev : Option Obs
-  replay : List Int            -- balances reconstructed from events
-
-def zeroObs : Obs := { ok := true, sup := 0, bal := List.replicate N 0, allow := [], now := 0, evs := [], dem := [] }
-
-def addAt (l : List Int) (i : Nat) (d : Int) : List Int := l.mapIdx (fun j x => if j = i then x + d else x)
-
-def replayEv (b : List Int) (ev : List String) : List Int :=
-  match ev with
-  | ["mint", t, a] => match t.toNat?, a.toInt? with | some t, some a => addAt b t a | _, _ => b
-  | ["burn", f, a] => match f.toNat?, a.toInt? with | some f, some a => addAt b f (-a) | _, _ => b
-  | ["transfer", f, t, a] =>
-    match f.toNat?, t.toNat?, a.toInt? with
-    | some f, some t, some a => addAt (addAt b f (-a)) t a
-    | _, _, _ => b
-  | _ => b
+/-- the size of the observed universe comes from the sequence label (`n=<k>`, default 5), as on
+the model side (`FungibleIO.initM`) -/
+def minit (label : String) : Mon := { prev := none, replay := List.replicate (labelN label) 0, n := labelN label }
 
 def check (m : Mon) (opl obs : String) : Mon × Option String :=
   match parseObs obs with
   | none => (m, some s!"site=fungible.parse unparsable observation {obs}")
-  | some o =>
-    let prev := m.prev.getD zeroObs
-    let ws := words opl
-    let kind := (ws.drop 1).head?.getD ""
-    let amt := (kvInt? ws "amt").getD 0
-    let replay' := o.evs.foldl replayEv m.replay
-    let m' : Mon := { prev := some o, replay := replay' }
-    let fail : Option String :=
-      if o.bal.sum ≠ o.sup then some s!"site=fungible.sum total_supply={o.sup} but balances sum to {o.bal.sum}"
-      else if o.bal.any (· < 0) then some "site=fungible.negative a balance is negative"
-      else if ¬ o.ok ∧ (o.sup ≠ prev.sup ∨ o.bal ≠ prev.bal ∨ o.allow ≠ prev.allow) then
-        some "site=fungible.rollback a failed call changed supply, a balance or an allowance"
-      else if o.ok ∧ kind = "mint" ∧ o.sup ≠ prev.sup + amt then some "site=fungible.mint supply not +amount"
-      else if o.ok ∧ (kind = "burn" ∨ kind = "burn_from") ∧ o.sup ≠ prev.sup - amt then
-        some "site=fungible.burn supply not -amount"
-      else if o.ok ∧ (kind = "transfer" ∨ kind = "transfer_from" ∨ kind = "approve" ∨ kind = "advance")
-          ∧ o.sup ≠ prev.sup then some s!"site=fungible.{kind} supply changed"
-      else if replay' ≠ o.bal then some s!"site=fungible.replay event replay gives {replay'} but balances are {o.bal}"
-      else none
-    (m', fail)
+  | some o => checkCore m (parseLine opl) o
 
 def machine : Machine where
   σ := M
   init := initM
   op := stepLine
   μ := Mon
-  minit := fun _ => { prev := none, replay := List.replicate N 0 }
+  minit := minit
   mon := check
 
 end OZ.Drv.C01
